@@ -989,6 +989,7 @@ func runHostileCase(c HostileCase) HostileResult {
 	before := captureLocalView(victim)
 
 	var status, reason string
+	fetchFailed := false
 	if c.API == "termui" {
 		// the terminal UI in a pseudo terminal (tmux): pull with the 'i' key
 		screen, stderr, exited, exercised := runTermuiPull(victim.Dir)
@@ -1029,6 +1030,9 @@ func runHostileCase(c HostileCase) HostileResult {
 			fail("cli-crash:"+mutKey(c.Mut)+":"+siteFn(mon.PanicSite(out)), fmt.Sprintf("`git-bug pull` crashed on hostile remote data (%s at commit %d):\n%s", c.Mut, at, mon.CrashExcerpt(out)))
 			status, reason = "crash", "exit "+fmt.Sprint(code)
 		default:
+			if !strings.Contains(out, "Merging data") {
+				fetchFailed = true // the command stopped at its fetch step
+			}
 			// the verdict on the hostile entity is read from the local ref: created or moved = accepted
 			now, _ := gitraw.RefTable(victim.Repo, "refs/bugs/")
 			if h, ok := now[localRef]; ok && h != before.Refs[localRef] {
@@ -1045,6 +1049,12 @@ func runHostileCase(c HostileCase) HostileResult {
 		}
 		idsBefore := sortedIds(rc.Bugs().AllIds())
 		perr := rc.Pull("evil")
+		if perr != nil {
+			// a pull that failed at its fetch step merged nothing (counts as rejection): fetching again tells
+			if _, ferr := rc.Fetch("evil"); ferr != nil {
+				fetchFailed = true
+			}
+		}
 		idsAfter := sortedIds(rc.Bugs().AllIds())
 		if perr != nil {
 			status, reason = "invalid", perr.Error()
@@ -1081,7 +1091,7 @@ func runHostileCase(c HostileCase) HostileResult {
 	}
 	res.Status, res.Reason = status, reason
 	after := captureLocalView(victim)
-	if status != "fetch-error" && status != "crash" {
+	if status != "fetch-error" && status != "crash" && !fetchFailed {
 		for _, id := range companions {
 			// (when the fetch itself failed nothing was received: only entities whose remote-tracking ref exists count)
 			if ok, _ := victim.Repo.RefExist("refs/remotes/" + remoteName + "/bugs/" + id.String()); !ok {
